@@ -439,7 +439,7 @@ def merge_structure(P, rep, rule="MERGE"):
                 if n.get("k") == "DeclRefExpr" and P.d(n["r"]).get("qn") == "WorldBuilder::Consts::PI":
                     return sp.pi
                 return None
-            v = norm.Sym(P, F, inline_locals=False, hook=hk)(x["c"][1])
+            v = norm.Sym(P, F, inline_locals=False, hook=hk, inline_consts=True)(x["c"][1])
             if not eq(v, sp.pi / 180 if spherical else sp.Integer(1)):
                 okconv = False
     if not okconv:
@@ -556,7 +556,13 @@ def bezier_algebra(P, rep, rule="EXPR.bezier"):
     P0, P1, C0, C1 = sp.symbols("P0 P1 C0 C1")
 
     def hook_for(F, ivar_names):
+        nl = norm.naming_locals(P, F)
+
         def hook(n):
+            if n.get("k") == "DeclRefExpr" and n.get("r") in nl.vals:      # an alias of a curve point / control point
+                h = hook(sc(nl.vals[n["r"]]))
+                if h is not None:
+                    return h
             s = astq.subscript(n)
             if s and sc(s[1]).get("k") == "IntegerLiteral":
                 # a component of a point: the identity is checked component-agnostically
